@@ -168,7 +168,10 @@ impl DataStorage {
         if self.committed_objects.contains_key(rev.digest()) {
             true
         } else {
-            matches!(self.read_object(rev), Ok(_obj))
+            // Only revisions that carry no stored payload are valid without a pack entry. Objects that
+            // merely sit in the in-memory cache or in the stage (e.g. written and then unstaged) are not
+            // in the storage: a stored delta referring to them is not complete
+            rev.is_empty() || rev.is_deleted() || rev.is_resolved() || rev.is_charcode()
         }
     }
 
